@@ -35,6 +35,16 @@ def analyse(chk, qual, build=None, atoms=(R, DT), self_cls=None, flags="cold", l
         pos = [oav]
     args = build(I, st, fi) if build else {}
     kwav = args.pop(fi.kwarg, None) if (fi.kwarg and fi.kwarg in args) else None
+    if kwav is not None and kwav.kind == K_DICT and kwav.dvals:
+        # keywords the caller passes land on the parameters that name them (positional-or-keyword or keyword-only); only the rest is
+        # collected by **kwargs -- exactly what the call `f(..., **{...})` does
+        named = [k for k in kwav.dvals if k in fi.params or k in fi.kwonly]
+        if named:
+            for k in named:
+                args.setdefault(k, kwav.dvals[k])
+            rest = {k: v for k, v in kwav.dvals.items() if k not in named}
+            ks = frozenset(rest)
+            kwav = kwav.replace(dvals=rest, dmust=(kwav.dmust or frozenset()) & ks, dmay=(kwav.dmay & ks) if kwav.dmay is not None else None)
     bound = I.bind(fi, pos, args, None, None)
     if kwav is not None:
         bound[fi.kwarg] = kwav
@@ -434,3 +444,25 @@ def no_int_arith(chk, rule, qual, build, construct, atoms=(R, DT), self_cls=None
         chk.ob(rule, construct, "for %s no difference/product of the data is formed in the integer dtype" % what, True,
                derived="the data is promoted to float before any difference or product", nontrivial=True)
     return I
+
+
+def concat_pieces(r, here, src_tag):
+    """A two-sided spectrum assembled from four pieces by one np.concatenate / np.hstack: [(length, class)] with class zero / plain /
+    mirror (conjugated and reversed) / ?; None when there is no single four-piece join in the functions `here` accepts."""
+    cats = [e for e in r.events("lib-call") if here(e) and e.name in ("numpy.concatenate", "numpy.hstack") and e.args and
+            getattr(e.args[0], "items", None) and len(e.args[0].items) == 4]
+    if len(cats) != 1:
+        return None, None
+
+    def piece(v):
+        ln = v.shape[0] if v.shape else None
+        if v.sign == S_ZERO:
+            cls = "zero"
+        elif "conj" in v.tags and "flip" in v.tags and src_tag in v.tags:
+            cls = "mirror"
+        elif src_tag in v.tags and "conj" not in v.tags and "flip" not in v.tags:
+            cls = "plain"
+        else:
+            cls = "?"
+        return (repr(ln) if ln is not None else None, cls)
+    return [piece(v) for v in cats[0].args[0].items], cats[0]
